@@ -11,7 +11,8 @@
 // ps: the same creation of host objects for a fresh address by really concurrent goroutines released together by a spin
 // barrier (no scheduler control: this also exercises code whose healthStore operations have no yield point between
 // them); calls and observations are made sequentially afterwards, so the expected observation does not depend on the
-// interleaving.
+// interleaving. (The constant last case token only makes these lines longer than the shortest pt line: ./check keeps the
+// SHORTEST failing lines for the replay, and a pt line replays deterministically while a ps line does not.)
 package c16
 
 import (
@@ -255,11 +256,11 @@ func (r *allocRig) runSchedule(c *hx.Ctx, pre []preWord, threads []allocThread, 
 	for _, t := range sched {
 		sb.WriteByte(byte('0' + t))
 	}
-	tr := strings.Join(trace, ",")
-	if tr == "" {
-		tr = "-"
+	tr, sc := strings.Join(trace, ","), sb.String()
+	if tr == "" { // no yield point was reached at all (possible only when the code under test has none left)
+		tr, sc = "-", "-"
 	}
-	c.Emit("C16", fmt.Sprintf("pt %s %s %s", fmtPre(pre), fmtAllocThreads(threads), sb.String()), tr+" "+observe(r.hosts[:n]))
+	c.Emit("C16", fmt.Sprintf("pt %s %s %s", fmtPre(pre), fmtAllocThreads(threads), sc), tr+" "+observe(r.hosts[:n]))
 	return
 }
 
@@ -441,7 +442,7 @@ func runAlloc(c *hx.Ctx) {
 		for t, h := range hosts {
 			applyOps(h, th[t].ops)
 		}
-		c.Emit("C16", fmt.Sprintf("ps - %s", fmtAllocThreads(th)), observe(hosts))
+		c.Emit("C16", fmt.Sprintf("ps - %s goroutines-released-together", fmtAllocThreads(th)), observe(hosts))
 		c.Count(fmt.Sprintf("ps.hosts=%d", n))
 	}
 	atomic.StoreUint32(&z.quit, 1)
